@@ -267,6 +267,65 @@ def all_patterns(fn):
                 yield from sub(p)
 
 
+def _used(e):
+    return {x['p']['hid'] for x, _ in hir_walk(e) if x['k'] == 'path' and x['p'].get('res') == 'local'}
+
+
+def _branch_paths(e, cap=64):
+    """the sets of locals used along each branch of an expression (if / match split, blocks combine in sequence)"""
+    if e is None:
+        return [set()]
+    k = e['k']
+    if k == 'if':
+        u0 = _used(e['cond'])
+        out = [u0 | p for p in _branch_paths(e['then'], cap)] + [u0 | p for p in (_branch_paths(e['else'], cap) if e.get('else') else [set()])]
+        return out[:cap]
+    if k == 'match':
+        u0 = _used(e['scrut'])
+        out = []
+        for a in e['arms']:
+            g = _used(a['guard']) if a.get('guard') else set()
+            out += [u0 | g | p for p in _branch_paths(a['body'], cap)]
+        return out[:cap] or [u0]
+    if k == 'block':
+        paths = [set()]
+        items = [st.get('init') if st['k'] == 'local' else st.get('e') for st in e['stmts']] + [e.get('expr')]
+        for it in items:
+            if it is None:
+                continue
+            sub = _branch_paths(it, cap)
+            paths = [a | b for a in paths for b in sub][:cap]
+        return paths
+    return [_used(e)]
+
+
+def _pair_scopes(fn):
+    """(cursor binders, match binders, scope expression) for every (Cursor, ParserMatch) pair pattern bound by `if let`,
+    by a match arm or by a `let` statement"""
+    def pair(p):
+        while p is not None and p['k'] in ('ts', 'ref') and (p.get('subs') or p.get('p')):
+            p = p['subs'][0] if p['k'] == 'ts' and len(p['subs']) == 1 else (p.get('p') if p['k'] == 'ref' else None)
+        if p is not None and p['k'] == 'tuple' and PAIR.match(p.get('ty', '')) and len(p['subs']) == 2:
+            return set(pat_binds(p['subs'][0])), set(pat_binds(p['subs'][1]))
+        return None
+    for e, anc in hir_walk(fn.hir['body']):
+        if e['k'] == 'if' and e['cond']['k'] == 'let':
+            pr = pair(e['cond']['pat'])
+            if pr and pr[0] and pr[1]:
+                yield pr[0], pr[1], e['then']
+        elif e['k'] == 'match' and e.get('src') != 'TryDesugar':
+            for a in e['arms']:
+                pr = pair(a['pat'])
+                if pr and pr[0] and pr[1]:
+                    yield pr[0], pr[1], a['body']
+        elif e['k'] == 'block':
+            for i, st in enumerate(e['stmts']):
+                if st['k'] == 'local':
+                    pr = pair(st['pat'])
+                    if pr and pr[0] and pr[1]:
+                        yield pr[0], pr[1], {'k': 'block', 'stmts': e['stmts'][i + 1:], 'expr': e.get('expr')}
+
+
 def r2_no_discard(c, facts):
     R = c.rule('C11.R2', 'NO-DISCARD: a consumed token or node is always attached to the tree')
     nprod = npat = 0
@@ -296,6 +355,14 @@ def r2_no_discard(c, facts):
                 c.bad(R, '%s:match-discarded' % q, '%s keeps the cursor of a successful sub-parser but drops its token/node: the consumed input is not a leaf of the tree and the parent span shrinks (%s)' % (q, fn.loc()), **inst)
             else:
                 c.ok(R, inst)
+        # ... on every path: where the pair is bound by `if let` / `match` / `let`, each branch of its scope that goes on with
+        # the cursor also hands the match on (`if let Ok((s, n0)) = parse_token(..) { if let Ok(..) = .. { .. [n0, n1] .. s } else { s } }`
+        # keeps the cursor past a token it drops on the inner else branch)
+        for cur_h, mat_h, scope in _pair_scopes(fn):
+            for path in _branch_paths(scope):
+                if (cur_h & path) and not (mat_h & path):
+                    c.bad(R, '%s:match-discarded-on-a-branch' % q, '%s goes on with the cursor of a successful sub-parser on a branch that drops its token/node: the consumed input is not a leaf of the tree (%s)' % (q, fn.loc()))
+                    break
         # triples produced by intersperse's and_then: (s, n0, n1)
     c.floor(R, 'productions and combinators analysed', nprod, 55)
     c.floor(R, 'destructured parser results', npat, 60)
@@ -511,7 +578,7 @@ def r5_push_advance(c, facts):
             continue
         for pt, subs, bad in push_advance_sites(fn):
             if not subs:
-                c.skip(R, {'fn': fn.qname, 'push_line': pt['ln'], 'reason': 'pushed node does not come from a sub-parse result'})
+                c.skip(R, '%s:%s' % (fn.qname, pt['ln']), 'pushed node does not come from a sub-parse result')
                 continue
             n += 1
             inst = {'fn': fn.qname, 'push_line': pt['ln'], 'sub_parses': subs}
